@@ -17,3 +17,10 @@ From NQ Require Base.MiniC gen.CGen Tie.GenCommon Tie.Gen_small.
 Lemma tie_generated_issafe : forall c : N, (c < 256)%N ->
   GenCommon.retval (CGen.C_issafe.run 1 (MiniC.wraps 8 (Z.of_N c))) = Some (MiniC.b2z (Smtpd.issafe c)).
 Proof. exact Gen_small.gen_issafe_eq. Qed.
+(* safeput() of today's received.c, translated to Gallina by tools/c2gallina.py (gen/CGen.v, module C_safeput): what it hands to
+   the queue for a peer-controlled string is exactly the model's safe string - only safe characters or '?' *)
+From NQ Require Tie.Gen_names Base.Bytes.
+Lemma tie_generated_safeput : forall (pre : list Z) (t : Bytes.bytes), GenCommon.bytes_ok t -> ~ In 0%N t -> (Z.of_nat (List.length t) < 2 ^ 31)%Z ->
+  option_map (fun r => CGen.C_safeput.a_qqt__out (snd r)) (CGen.C_safeput.run (S (List.length t)) pre (GenCommon.zs t ++ [0%Z]) 0%Z)
+  = Some (pre ++ GenCommon.zs (Smtpd.safe t)).
+Proof. exact Gen_names.gen_safeput_eq. Qed.
